@@ -395,10 +395,18 @@ func (env *LEnv) load(ctx context.Context, exprs []*LVal) *LVal {
 	// Remember the current package and restore it for the caller after
 	// evaluation completes.
 	currPkg := env.Runtime.Package
+	// The location as well: evaluating the loaded forms moves env.loc into the
+	// loaded source.  When this load was called by a builtin running in env
+	// itself (load-file used as a callback of map at top level, say), the
+	// next frame that builtin pushes takes env.loc as its call site, and a
+	// nested relative load-file resolves against the directory of THAT
+	// location -- the file loaded before, not the file doing the loading.
+	currLoc := env.loc
 	defer func() {
 		// This should be fine as packages can't be deleted.  The runtime
 		// registry should definitely still contain currPkg.
 		env.Runtime.Package = currPkg
+		env.loc = currLoc
 	}()
 
 	ret := Nil()
